@@ -457,7 +457,10 @@ func (s *Sim) CrashRestart(applied func(a *actor) bool) {
 				w.rec.Crashed = true
 			}
 			if w.pending != nil {
-				if applied != nil && applied(w) && w.pending.IsWrite() {
+				// a claim create of a multi-claim group is parked in map-iteration order of
+				// the code under test: dying "after apply" there would not replay
+				// (DESIGN.md §3.7), so the death falls before the group
+				if applied != nil && applied(w) && w.pending.IsWrite() && !(w.pending.Kind == KPVC && w.pending.Verb == "create") {
 					s.count("fault.crash.after")
 					s.release(w, Decision{Kind: DecFailAfter, Err: errDead, Label: "crash-after"})
 				} else {
